@@ -239,6 +239,7 @@ def run(repo: Repo, rep: Report) -> None:
             rep.ob("C04.c-filter-error-is-false", ev, q, "%s consulted through _ebv" % norm(u), ok,
                    "" if ok else "the condition %s is evaluated outside _ebv: an expression error would propagate instead of counting as false" % norm(u), node=u)
     run_more(repo, rep)
+    construct_rule(repo, rep)
 
 
 def run_more(repo: Repo, rep: Report) -> None:
@@ -300,6 +301,26 @@ def run_more(repo: Repo, rep: Report) -> None:
 
 
 BMAPS = ("rdflib.plugins.sparql.sparql.Bindings", "rdflib.plugins.sparql.sparql.FrozenDict", "rdflib.plugins.sparql.sparql.QueryContext")
+def construct_rule(repo: Repo, rep: Report) -> None:
+    ev = repo.mod("rdflib.plugins.sparql.evaluate")
+    rep.rule("C04.g-construct-instantiates-every-solution",
+             "evalConstructQuery fills the template once for every solution of the pattern (the loop over evalPart has no conditional skip): the "
+             "template is instantiated over the solution multiset, and blank nodes in it are fresh per solution", floor=1)
+    f = ev.func("evalConstructQuery")
+    lps = [n for n in own_nodes(f) if isinstance(n, ast.For) and any(isinstance(c, ast.Call) and norm(c.func) == "evalPart" for c in ast.walk(n.iter))]
+    if not lps:
+        raise AnalysisError("evalConstructQuery: loop over evalPart not found")
+    for lp in lps:
+        skips = [n for s_ in lp.body for n in ast.walk(s_) if isinstance(n, (ast.Continue, ast.Break))]
+        conds = [s_ for s_ in lp.body if isinstance(s_, ast.If)]
+        fills = [c for s_ in lp.body for c in ast.walk(s_) if isinstance(c, ast.Call) and norm(c.func) == "_fillTemplate"]
+        top_fill = any(any(c is x for x in ast.walk(s_)) for s_ in lp.body if not isinstance(s_, ast.If) for c in fills)
+        ok = not skips and bool(fills) and top_fill
+        rep.ob("C04.g-construct-instantiates-every-solution", ev, "evalConstructQuery", "for %s in %s" % (norm(lp.target), norm(lp.iter)), ok,
+               "every solution instantiates the template" if ok else "solutions are skipped before the template is filled (%s): duplicate solutions no longer yield their own fresh blank nodes" % (norm(conds[0].test) if conds else "continue/break"), node=lp)
+
+
+BMAPS_PLACEHOLDER = None
 EXEMPT_D: dict = {
     ("Bindings.__getitem__", "self.outer"):
         "Bindings.__len__ counts the whole outer chain, so `not self.outer` is true only when no outer level holds any key: the lookup would raise KeyError either way",
